@@ -124,7 +124,15 @@ impl Check for C10 {
         o.noncanonical_pct = 0;
         o.unknown_pct = *rng.pick(&[0u64, 40, 80, 100]);
         o.raw_pct = *rng.pick(&[0u64, 10]);
-        o.pay.max_len = o.pay.max_len.min(300);
+        // mostly small payloads (what matters is the structure); one history in twelve has a few large ones (4 KiB to
+        // beyond the 64 KiB that buffers tend to be sized at), in a document small enough to decode at every instant
+        if rng.chance(1, 12) {
+            o.pay.max_len = 70_000;
+            o.pay.boundary_pct = 40;
+            o.max_nodes = o.max_nodes.min(10);
+        } else {
+            o.pay.max_len = o.pay.max_len.min(300);
+        }
         let doc = gen::gen_doc(&mut rng, &spec, &o);
         let mut ops = Vec::new();
         let full_pct = *rng.pick(&[0u64, 30]);
